@@ -312,7 +312,7 @@ def GPair {α} (R : List WOp → List WOp → Prop) (m m' : M α) : Prop :=
   ∀ env, ∃ ops ops' o, TracedAtL m env ops o ∧ TracedAtL m' env ops' o ∧ R ops ops'
 
 /-- what the calculus needs of the relation: it holds of empty lists, is compatible with
-    concatenation, and relates a write of an admitted chunk (`W`) / a flush to itself -/
+    concatenation, and relates a write of an allowed chunk (`W`) / a flush to itself -/
 structure RelOK (W : Bytes → Prop) (R : List WOp → List WOp → Prop) : Prop where
   nil : R [] []
   app : ∀ {a a' b b'}, R a a' → R b b' → R (a ++ b) (a' ++ b')
